@@ -46,6 +46,12 @@ CHECKS = {
  "C10": ("lock-order monitor (lockdep style) on every table-lock acquisition + hook-point independence probes + race-detector stress with progress watchdog and hook-derived wait-for snapshot",
          "Fault enumeration: with a writer paused at each of 9 hook points, readers, disjoint committers, iterator create/close and duplicate/unordered table sets must complete (committers may queue at commit.rootLocked); exploration: 2-32 goroutines over 2-8 tables with iterators, 1 ms collection and table registration under -race; strictly increasing lock sequence numbers are asserted on every acquisition, which catches ordering/de-duplication bugs on every execution rather than only when a deadlock happens.",
          "A watchdog firing without wait-for evidence is reported inconclusive; bounded progress = the fixed operation count completes.", "5/C10"),
+ "C02": ("hook-point pause/probe controller: snapshots taken by a second goroutine while the writer is paused at every step inside Commit/Abort (all-or-none + conserved sum); abort-vs-never-ran model comparison over random histories; race-detector stress with conserved sums, per-tag all-or-none and porcupine",
+         "Fault enumeration over the 10 pause points of WriteTxn/Commit/Abort with 2-4 table transactions, plus exploration: aborted transactions of every operation kind compared with the model in which they never ran (battery on every index, revisions, retained watch channels, retained snapshots, behaviour of later transactions), plus concurrent transfer workloads under -race whose every snapshot must show the conserved total and all-or-none of each transaction's rows.",
+         "The 'never ran' reference is the executable model, not a second database; graveyard retention after abort is observed through change iterators (C07 oracle), not through counts.", "5/C02"),
+ "C06": ("watch-channel oracle over random histories (model decides must-close at every Commit, no-close after Abort, open at hand-out) + commit-phase monitor at the hook points inside Commit + woken-reader revision check with concurrent waiters under the race detector",
+         "Fault enumeration at the hook points commit.beforeRootLock / commit.rootLocked / commit.afterNotify (no channel closed before the root store; closed channels imply a newer visible revision) on every commit of seeded random histories with up to 40 retained channels of every *Watch variant on every index kind; plus waiter goroutines under -race with delay injection.",
+         "Spurious closes by committed transactions are allowed (the statement forbids only missed changes, early wake-ups and abort wake-ups); a commit that changes nothing (e.g. only a rejected compare-and-swap) may close channels without a newer revision; LowerBoundWatch is held to 'result changed', AllWatch to 'table changed'.", "5/C06"),
 }
 
 NOT_YET = "check not built yet in this session (planned: see DESIGN.md section 5)"
